@@ -663,6 +663,8 @@ def eval_jaxpr(jaxpr, consts, args, ctx):
             outs = SPECIAL[name](eqn, ins, ctx)
         elif name == 'debug_callback':
             outs = []
+        elif name in ('stop_gradient', 'optimization_barrier'):
+            outs = list(ins)  # identity on values
         elif not anysym and name not in EXACT_MODELS:
             try:
                 r = bind(eqn, *[jnp.asarray(x) for x in ins])
